@@ -130,7 +130,7 @@ VARIABLES xfmt, xgk, xdk, xkw, xdual, xlatlon, xbad
 apivars == << xfmt, xgk, xdk, xkw, xdual, xlatlon, xbad >>
 
 ApiInit ==
-    /\ mi \in ApiMeshes /\ route = "api" /\ d = NoD /\ nd = 0 /\ inp = NoD /\ outs = <<>> /\ ro = "-"
+    /\ mi \in ApiMeshes /\ route = "api" /\ d = NoD /\ nd = 0 /\ inp = NoD /\ outs = <<>> /\ ro = "-" /\ bw = NoSweep
     /\ xfmt \in Formats
     /\ xgk \in GridKinds(xfmt)
     /\ xbad \in (IF xfmt = "ugrid" /\ xgk \in { "str", "pathlike", "dataset_mem" } THEN BOOLEAN ELSE { FALSE })
